@@ -70,6 +70,38 @@ def onRecvVSC (rank : Nat → Nat) (s : State) (chan : String) (id : Nat) (updat
                     h2v := setH2V s.h2v (s.height + 1) id,
                     outstanding := s.outstanding.filter fun k => !acks.contains k }, .ok)
 
+/-! ### channel handshake on the consumer (x/ccv/consumer/ibc_module.go, keeper VerifyProviderChain) -/
+
+def blank (s : String) : Bool := s.toList.all fun c => c == ' '
+
+/-- OnChanOpenInit: `connClient h` = client underlying connection `h` (none: no such connection);
+    `providerClient` = the client recorded for the provider at genesis -/
+def chanOpenInit (s : State) (ordered : Bool) (port cport ver : String) (hops : List String)
+    (connClient : String → Option String) (providerClient : Option String) : Bool :=
+  s.pchan.isNone && ordered && port == "consumer" && ((if blank ver then "1" else ver) == "1") &&
+  cport == "provider" &&
+  (match hops with
+   | [h] => (match connClient h, providerClient with
+             | some cl, some pc => cl == pc
+             | _, _ => false)
+   | _ => false)
+
+/-- OnChanOpenTry / OnChanOpenConfirm: the consumer never accepts a handshake it did not initiate -/
+def chanOpenTry : Bool := false
+def chanOpenConfirm : Bool := false
+
+/-- OnChanOpenAck: `mdVersion` = version in the provider's handshake metadata (none: undecodable) -/
+def chanOpenAck (s : State) (mdVersion : Option String) (transferChanExists chanKnown : Bool := true) : Bool :=
+  -- (afterwards the consumer opens the reward-transfer channel over the same connection unless one
+  --  exists; that needs the acknowledged channel to exist in core IBC)
+  s.pchan.isNone && mdVersion == some "1" && (transferChanExists || chanKnown)
+
+/-- OnChanCloseInit: users may only close CCV channels that are NOT the established provider channel -/
+def chanCloseInit (s : State) (ch : String) : Bool :=
+  match s.pchan with
+  | some pc => pc != ch
+  | none => false
+
 /-- SlashWithInfractionReason → QueueSlashPacket.  `infraction`: 0 unspecified, 1 double sign, 2 downtime -/
 def slash (s : State) (key power infractionHeight infraction : Nat) : State :=
   if infraction == 0 then s
